@@ -604,3 +604,26 @@ Proof.
   unfold batch_rows. rewrite (flat_map_ext (run_rows max_steps period) (rows_by_hand max_steps period)); [apply Permutation_refl|].
   intros r. unfold run_rows, rows_by_hand. rewrite run_model_by_hand. reflexivity.
 Qed.
+
+(* values[positions[-1]] of _collect_data is always in range: every model_vars list is exactly as long
+   as _collection_steps, and positions[-1] indexes into _collection_steps *)
+Lemma last_pos_lt s cs i : last_pos s cs = Some i -> (i < length cs)%nat.
+Proof.
+  revert i. induction cs as [|c t IH]; intros i; simpl; [discriminate|].
+  destruct (last_pos s t) as [j|].
+  - intros H. inversion H. subst. specialize (IH j eq_refl). lia.
+  - destruct (c =? s); [|discriminate]. intros H. inversion H. lia.
+Qed.
+
+Lemma no_index_error k max_steps :
+  let d := b_d (run_model k max_steps) in
+  (forall n vals, In (n, vals) (d_mvars d) -> length vals = length (d_csteps d)) /\
+  (forall s i, last_pos s (d_csteps d) = Some i -> forall n vals, In (n, vals) (d_mvars d) -> (i < length vals)%nat).
+Proof.
+  intros d. pose proof (run_model_inv k max_steps) as [Hr _ _ _]. fold d in Hr.
+  assert (forall n vals, In (n, vals) (d_mvars d) -> length vals = length (d_csteps d)) as H.
+  { intros n vals Hin. rewrite (r_mvars _ _ _ _ Hr) in Hin. rewrite (r_csteps _ _ _ _ Hr).
+    unfold mvars_of in Hin. apply in_map_iff in Hin. destruct Hin as [q [Hq _]]. inversion Hq.
+    rewrite !map_length. reflexivity. }
+  split; [exact H|]. intros s i Hi n vals Hin. rewrite (H n vals Hin). apply (last_pos_lt s _ i Hi).
+Qed.
